@@ -35,7 +35,16 @@ func scenarios() []scenario {
 	notFound := reqSpec{Name: "notFound", Method: "GET", Target: "/api/nothing/here", Headers: map[string]string{"Accept": "application/json"}}
 	wrongMethod := reqSpec{Name: "wrongMethod", Method: "DELETE", Target: "/api/items/5", Headers: map[string]string{"Accept": "application/json"}}
 	noAccept := reqSpec{Name: "noAccept", Method: "POST", Target: "/api/items/13", Headers: map[string]string{"Content-Type": "application/json", "X-Key": "good-n", "Accept": "image/png"}, Body: `{"v":"N"}`}
+	plainJSON := reqSpec{Name: "plainJSON", Method: "POST", Target: "/api/plain?q=pj", Headers: map[string]string{"Content-Type": "application/json", "Accept": "application/json"}, Body: `{"v":"PJ"}`}
+	plainText := reqSpec{Name: "plainText", Method: "POST", Target: "/api/plain?q=pt", Headers: map[string]string{"Content-Type": "text/plain", "Accept": "text/plain"}, Body: "plain route text"}
+	listGood := reqSpec{Name: "listGood", Method: "GET", Target: "/api/list?q=lg", Headers: map[string]string{"X-Key": "good-l", "Accept": "application/json"}}
+	listNone := reqSpec{Name: "listNone", Method: "GET", Target: "/api/list?q=ln", Headers: map[string]string{"Accept": "application/json"}}
+	listBad := reqSpec{Name: "listBad", Method: "GET", Target: "/api/list?q=lb", Headers: map[string]string{"X-Key": "wrong", "Accept": "text/plain"}}
 	return []scenario{
+		{"static-route-json-vs-text", []reqSpec{plainJSON, plainText}},
+		{"static-route-text-vs-json", []reqSpec{plainText, plainJSON}},
+		{"static-secured-good-vs-none", []reqSpec{listGood, listNone}},
+		{"static-secured-bad-vs-none-vs-good", []reqSpec{listBad, listNone, listGood}},
 		{"same-op-different-values", []reqSpec{postA, postB}},
 		{"json-vs-text-consumer", []reqSpec{postA, postText}},
 		{"good-vs-bad-credentials", []reqSpec{postA, postBad}},
